@@ -175,8 +175,26 @@ func (c *c08Child) stop() {
 	}
 }
 
-// run returns "ok <n>", "err", "panic", or "crash:<reason>".
+// run returns "ok <n>", "err <bytes allocated>", "panic:<kind>", or "crash:<reason>".
+// A dead child is only believed if the same case also kills a FRESH child: the address-space
+// limit counts virtual memory, which a long-lived child accumulates (Go does not unmap heap
+// arenas), so that late cases could otherwise die of the history instead of their input.
 func (c *c08Child) run(goType, entry string, data []byte) string {
+	res := c.run1(goType, entry, data)
+	if strings.HasPrefix(res, "crash") {
+		res = c.run1(goType, entry, data) // c.cmd is nil: fresh child
+	}
+	if toks := strings.Fields(res); len(toks) == 2 && toks[0] == "err" {
+		var alloc uint64
+		fmt.Sscan(toks[1], &alloc)
+		if alloc > 128<<20 {
+			c.stop() // next case starts from a fresh address space
+		}
+	}
+	return res
+}
+
+func (c *c08Child) run1(goType, entry string, data []byte) string {
 	if c.cmd == nil {
 		if err := c.start(); err != nil {
 			return "spawn-failed"
